@@ -94,15 +94,30 @@ func envMust(err error) {
 	}
 }
 
+// envMode: permission bits plus setuid / setgid / sticky given as 04000 / 02000 / 01000.
+func envMode(perm uint32) fs.FileMode {
+	m := fs.FileMode(perm & 0777)
+	if perm&04000 != 0 {
+		m |= fs.ModeSetuid
+	}
+	if perm&02000 != 0 {
+		m |= fs.ModeSetgid
+	}
+	if perm&01000 != 0 {
+		m |= fs.ModeSticky
+	}
+	return m
+}
+
 func envMkdir(path string, perm uint32, mtime int64) {
 	envMust(os.Mkdir(path, 0755))
-	envMust(os.Chmod(path, fs.FileMode(perm&0777)))
+	envMust(os.Chmod(path, envMode(perm)))
 	envPending = append(envPending, envStamp{path, mtime})
 }
 
 func envWriteFile(path string, perm uint32, mtime int64, data string) {
 	envMust(os.WriteFile(path, []byte(data), 0644))
-	envMust(os.Chmod(path, fs.FileMode(perm&0777)))
+	envMust(os.Chmod(path, envMode(perm)))
 	envMust(os.Chtimes(path, time.Unix(mtime, 0), time.Unix(mtime, 0)))
 }
 
